@@ -18,7 +18,7 @@ def prop(pid, quick, thorough=(), level="other", explanation="", assumptions=(),
 
 prop(
     "C01",
-    [hyg.rule_generic_capture, fmtparse.rule_fmt_counter, conv.rule_from_table, hdr.rule_bounds_appended, idx.rule_idx_space, shape.rule_discriminants, hdr.rule_tpl_hdr, hdr.rule_tpl_lint, hdr.rule_tpl_selfassoc, rawid.rule_raw_id, shape.rule_tpl_prec, fmtdec.rule_traversal, fmtdec.rule_guard_use, fmtdec.rule_shared_decision, gendet.rule_generics_search, gendet.rule_type_param_used, reject.rule_reject_ledger, idx.rule_enumerate_positions, errsel.rule_error_selection, fmtdec.rule_expansion_pair, hdr.rule_generics_preserve],
+    [hdr.rule_generics_source, hyg.rule_generic_capture, fmtparse.rule_fmt_counter, conv.rule_from_table, hdr.rule_bounds_appended, idx.rule_idx_space, shape.rule_discriminants, hdr.rule_tpl_hdr, hdr.rule_tpl_lint, hdr.rule_tpl_selfassoc, rawid.rule_raw_id, shape.rule_tpl_prec, fmtdec.rule_traversal, fmtdec.rule_guard_use, fmtdec.rule_shared_decision, gendet.rule_generics_search, gendet.rule_type_param_used, reject.rule_reject_ledger, idx.rule_enumerate_positions, errsel.rule_error_selection, fmtdec.rule_expansion_pair, hdr.rule_generics_preserve],
     explanation="Structural necessary conditions of 'every supported input expands to code that compiles warning-free': the 27 generated impl headers and every TypeGenerics splice "
     "(interpolations typed by rustc through the MIR binding join, identifier provenance by def-use), lint attributes on impls that name user variants, no Self::<Assoc> in enum-capable expanders, raw identifiers, "
     "spliced user expressions.",
@@ -38,7 +38,7 @@ prop(
 
 prop(
     "C03",
-    [fmtparse.rule_numeric_leaf, fmtparse.rule_peg_combinators, fmtparse.rule_peg_tables, fmtparse.rule_fmt_counter, fmtparse.rule_peg_equiv, fmtdec.rule_transparent_call, fmtdec.rule_dec_cover],
+    [fmtdec.rule_lookup_agreement, fmtparse.rule_numeric_leaf, fmtparse.rule_peg_combinators, fmtparse.rule_peg_tables, fmtparse.rule_fmt_counter, fmtparse.rule_peg_equiv, fmtdec.rule_transparent_call, fmtdec.rule_dec_cover],
     thorough=[fmtoracle.rule_reference_oracle],
     level="model_checking",
     explanation="A PEG is extracted from the combinator source of impl/src/fmt/parsing.rs on every run (fail-closed on any construct it does not understand) and compared, by table rules and by bounded "
@@ -109,7 +109,7 @@ prop(
 
 prop(
     "C11",
-    [attrs.rule_level_flags, optrules.rule_enabled_default, shape.rule_ref_types, hdr.rule_generics_preserve, facade.rule_error_display, shape.rule_accessors, errsel.rule_view_defs, idx.rule_idx_space, rawid.rule_raw_id, generic.rule_arg_order, generic.rule_field_correspondence, generic.rule_order_adaptors, optrules.rule_meta_defaults, state.rule_raw_flags],
+    [hdr.rule_generics_source, attrs.rule_level_flags, optrules.rule_enabled_default, shape.rule_ref_types, hdr.rule_generics_preserve, facade.rule_error_display, shape.rule_accessors, errsel.rule_view_defs, idx.rule_idx_space, rawid.rule_raw_id, generic.rule_arg_order, generic.rule_field_correspondence, generic.rule_order_adaptors, optrules.rule_meta_defaults, state.rule_raw_flags],
     explanation="Accessor methods, patterns, binders and error values are built per variant from one source; the failure re-match covers all variants; TryInto patterns go through matcher(field_indexes, binders) (IDX-SPACE, VIEW-DEF); "
     "method names are built from un-raw variant names.",
     assumptions=["snake_case conversion is delegated to convert_case (not analysed)", NOT_DECIDED_VALUES],
@@ -159,7 +159,7 @@ prop(
 
 prop(
     "C17",
-    [conv.rule_merge_no_shortcut, attrs.rule_level_flags, hdr.rule_user_bounds_flow, shape.rule_discriminants, attrs.rule_legacy_attr_parser, attrs.rule_typed_attrs, attrs.rule_attr_positions, conv.rule_merge_symmetry, optrules.rule_option_flow, reject.rule_reject_ledger, fmtdec.rule_attr_separator, optrules.rule_meta_defaults, state.rule_accumulators, state.rule_loop_exit],
+    [attrs.rule_position_grammar, conv.rule_merge_no_shortcut, attrs.rule_level_flags, hdr.rule_user_bounds_flow, shape.rule_discriminants, attrs.rule_legacy_attr_parser, attrs.rule_typed_attrs, attrs.rule_attr_positions, conv.rule_merge_symmetry, optrules.rule_option_flow, reject.rule_reject_ledger, fmtdec.rule_attr_separator, optrules.rule_meta_defaults, state.rule_accumulators, state.rule_loop_exit],
     explanation="Attribute totality: the untyped parser's checks dominate every successful return, its name matches end in rejecting arms, slots are written once; typed attributes reject repetition unless merging is documented "
     "(merge overrides enumerated, symmetric), synonyms are accepted alike and not branched on, legacy syntax is detected on every path, positional conflicts raise their diagnostics.",
     assumptions=["NOT decided: token-equality of expansions for synonymous inputs (follows from the parsers producing the same value; not proved), diagnostics' wording"],
@@ -167,7 +167,7 @@ prop(
 
 prop(
     "C18",
-    [panics.rule_parse_quote_shape, state.rule_shared_cursor, panics.rule_panic_ledger, panics.rule_extern_preconditions, panics.rule_closed_sets, panics.rule_termination, fmtparse.rule_peg_combinators, fmtparse.rule_peg_tables, fmtdec.rule_traversal, split.rule_scanner_progress, idx.rule_idx_space, rawid.rule_raw_id],
+    [panics.rule_where_clause_args, panics.rule_parse_quote_shape, state.rule_shared_cursor, panics.rule_panic_ledger, panics.rule_extern_preconditions, panics.rule_closed_sets, panics.rule_termination, fmtparse.rule_peg_combinators, fmtparse.rule_peg_tables, fmtdec.rule_traversal, split.rule_scanner_progress, idx.rule_idx_space, rawid.rule_raw_id],
     explanation="Every panic-capable site rustc sees in the crate (all features) is matched against a ledger: diagnostic, input-guaranteed, guarded (the guard is re-recognised from the conditions holding at the site on this run) or audited with a reason; "
     "closed sets behind unimplemented!/unreachable! are re-derived from the create_derive! table and the syn sources; recursive SCCs of the resolved call graph need a termination argument; parser loops progress.",
     assumptions=["panics inside syn / quote / proc-macro2 for token streams the compiler never produces are out of scope", "stack depth as a number is not bounded, only recursion on strict sub-terms"],
